@@ -248,7 +248,7 @@ def seen_lookup(seen, gitdir, spelling):
 
 
 def run(chk, b, tier):
-    n = 120 if tier == "quick" else 3000
+    n = 120 if tier == "quick" else 10000
     sz = b.sizer()
     scratch = b.scratchdir()
     shimdir = b.shimdir()
